@@ -453,3 +453,35 @@ func (s *Solver) retryFresh(extra string) string {
 	}
 	return "unknown"
 }
+
+// CrossCheck re-runs the current query scope in a fresh process of a second
+// solver (z3 4.8.12) and returns its verdict ("sat", "unsat", "unknown").
+func (s *Solver) CrossCheck() string {
+	f, err := os.CreateTemp("", "gosym-cross-*.smt2")
+	if err != nil {
+		return "unknown"
+	}
+	defer os.Remove(f.Name())
+	w := bufio.NewWriter(f)
+	for _, l := range s.base {
+		fmt.Fprintln(w, l)
+	}
+	for _, l := range s.log {
+		fmt.Fprintln(w, l)
+	}
+	for _, l := range s.scope {
+		fmt.Fprintln(w, l)
+	}
+	fmt.Fprintln(w, "(check-sat)")
+	w.Flush()
+	f.Close()
+	out, _ := exec.Command("z3", "-T:15", f.Name()).CombinedOutput()
+	txt := strings.TrimSpace(string(out))
+	if strings.Contains(txt, "(error") {
+		return "unknown"
+	}
+	if txt == "sat" || txt == "unsat" {
+		return txt
+	}
+	return "unknown"
+}
